@@ -1,6 +1,7 @@
 package main
 
 import (
+	"runtime"
 	"context"
 	"database/sql"
 	_ "embed"
@@ -179,4 +180,28 @@ func init() {
 		return nil, nil
 	})
 	register("ping", func(arg json.RawMessage) (interface{}, error) { return "pong", nil })
+}
+
+func init() {
+	// stats: goroutine count, pool statistics and (optionally) a goroutine dump
+	register("stats", func(arg json.RawMessage) (interface{}, error) {
+		var a struct {
+			Dump bool `json:"dump"`
+		}
+		json.Unmarshal(arg, &a)
+		out := map[string]interface{}{"goroutines": runtime.NumGoroutine()}
+		pools := map[string]interface{}{}
+		dbsMu.Lock()
+		for name, db := range dbs {
+			st := db.Stats()
+			pools[name] = map[string]interface{}{"open": st.OpenConnections, "in_use": st.InUse, "idle": st.Idle, "wait_count": st.WaitCount, "max_open": st.MaxOpenConnections}
+		}
+		dbsMu.Unlock()
+		out["pools"] = pools
+		if a.Dump {
+			buf := make([]byte, 4<<20)
+			out["dump"] = string(buf[:runtime.Stack(buf, true)])
+		}
+		return out, nil
+	})
 }
